@@ -1,9 +1,12 @@
 (* Eco/Gentoo/Range.v — model of pkg/ecosystem/gentoo/range.go *)
 From Verif.Base Require Import Bytes GoNum Ord.
+From Verif.Gen Require Operators.
 From Verif.Eco Require Import RangeCore.
 
 (* operators := []string{">=", "<=", "!=", ">", "<", "="} in parseSingleConstraint *)
-Definition gentoo_ops : list bytes := [$">="; $"<="; $"!="; $">"; $"<"; $"="].
+(* the list is generated from the Go source on every run (tools/gen -> Gen/Operators.v) *)
+Definition gentoo_ops : list bytes :=
+  Eval cbv delta [Verif.Gen.Operators.gentoo_ops] in Verif.Gen.Operators.gentoo_ops.
 
 (* commas become spaces, strings.Fields; a single field means the whole trimmed text is one
    constraint; HasPrefix loop with "missing version" error; bound parsed at once; String()
